@@ -80,6 +80,21 @@ def reloadDecision (cur : Option SrvAttrs) (rec : Option SrvAttrs) : Reload :=
   | some _, none => .removed
   | some c, some r => if c = r then .same else .replaced
 
+/-- Does `reload_server` run `adjust_server_state` for the server (through `load_server`)?  Exactly when a
+    server object is (re)built from a record whose parent bucket exists (`parentOk`). -/
+def reloadAdjusts (cur rec : Option SrvAttrs) (parentOk : Bool) : Bool :=
+  match reloadDecision cur rec with
+  | .replaced => parentOk
+  | .loadNew => rec.isSome && parentOk
+  | _ => false
+
+/-- Does it put the recorded placements back (`restore_placement`)?  Exactly when a server that held
+    instances is replaced. -/
+def reloadRestores (cur rec : Option SrvAttrs) (hadApps : Bool) : Bool :=
+  match reloadDecision cur rec with
+  | .replaced => hadApps
+  | _ => false
+
 /-- The attributes of the server the master holds after the reload (`none`: not loaded). -/
 def reloadResult (cur : Option SrvAttrs) (rec : Option SrvAttrs) : Option SrvAttrs :=
   match reloadDecision cur rec with
